@@ -9,6 +9,7 @@
   handler reads or writes it any more.
 -/
 import Tranp.Lemmas.Infer
+import Tranp.Lemmas.InferScope
 
 namespace Tranp.C03
 open Tranp Tranp.Infer Tranp.Generated
@@ -24,8 +25,8 @@ theorem dunder : ∀ row ∈ dunderRows, ∀ (x y v : Val),
   have htab : ∀ r ∈ dunderRows, pyBinTy r.2.1 r.1 r.2.2.1 = some r.2.2.2 ∧ r.1 ∈ scalarTys ∧ r.2.2.1 ∈ scalarTys ∧ r.2.2.2 ∈ scalarTys := by
     decide +kernel
   obtain ⟨hpy, hl, hr, hret⟩ := htab row hrow
-  have hcx : Conf x row.1 := conf_of_typeOf_scalar hl hx
-  have hcy : Conf y row.2.2.1 := conf_of_typeOf_scalar hr hy
+  have hcx : Conf [] x row.1 := conf_of_typeOf_scalar hl hx
+  have hcy : Conf [] y row.2.2.1 := conf_of_typeOf_scalar hr hy
   exact typeOf_of_conf_scalar hret (evalBin_conf hcx hcy hpy hev)
 
 /-- non-vacuity: the table has 56 scalar rows, e.g. `int / bool ↦ float`, and CPython does evaluate such operands -/
@@ -38,7 +39,7 @@ theorem dunder_unary : ∀ row ∈ unaryRows, ∀ (x v : Val), typeOf x = row.1 
   have htab : ∀ r ∈ unaryRows, (r.1 = .int ∨ r.1 = .float) ∧ r.2.2 = r.1 ∧ r.2.1 ≠ .inv := by decide +kernel
   obtain ⟨hl, hret, hop⟩ := htab row hrow
   rw [hret]
-  have hcx : Conf x row.1 := conf_of_typeOf_scalar (by rcases hl with h | h <;> rw [h] <;> decide) hx
+  have hcx : Conf [] x row.1 := conf_of_typeOf_scalar (by rcases hl with h | h <;> rw [h] <;> decide) hx
   have hok : factorOk row.2.1 row.1 = true := by
     rcases hl with h | h <;> rw [h] <;> cases hr : row.2.1 <;> first | rfl | exact absurd hr hop
   have hc := evalFactor_conf hcx hok hev
@@ -51,11 +52,11 @@ example : unaryRows.length = 4 ∧ (evalFactor .neg (.int 3)).map typeOf = .ok .
 /-- On scalar operands, one step of `each_binary_operator` over the generated table gives CPython's result type whenever
     CPython accepts the operands (no scalar disagreement is left since 4f4a122; the stub still accepts a few operand
     pairs CPython rejects, e.g. `int << float`, because shifts are not selected by the argument type). -/
-theorem step_agreement : ∀ l ∈ scalarTys, ∀ r ∈ scalarTys, ∀ op ∈ binOps, ∀ t, tryStep l op r = some t →
+theorem step_agreement : ∀ l ∈ scalarTys, ∀ r ∈ scalarTys, ∀ op ∈ binOps, ∀ t, tryStep [] l op r = some t →
     pyBinTy op l r = some t ∨ pyBinTy op l r = none := by
   decide +kernel
 
-example : tryStep .int .add .float = some .float ∧ tryStep .bool .bor .int = some .int ∧ pyBinTy .bor .bool .int = some .int := by
+example : tryStep [] .int .add .float = some .float ∧ tryStep [] .bool .bor .int = some .int ∧ pyBinTy .bor .bool .int = some .int := by
   decide +kernel
 
 /-! ## soundness -/
@@ -63,20 +64,20 @@ example : tryStep .int .add .float = some .float ∧ tryStep .bool .bor .int = s
 /-- The property's sentence on the model: on Core, inference succeeds (from every session state, leaving it untouched) and
     the inferred type denotes the value CPython computes. Unbounded: induction over expressions, lists, operator chains,
     dict items; includes unary operators on bool, `bool | int`, tuple slices with literal bounds, stub calls, comprehensions. -/
-theorem sound_conf {Γ : Env} {ρ : VEnv} {e : Expr} {v : Val}
-    (hcore : Core Γ e) (henv : EnvConf ρ Γ) (hev : eval ρ e = .ok v) :
-    ∃ T, (∀ s, infer Γ e s = (.ok T, s)) ∧ Conf v T := by
+theorem sound_conf {ct : ClassTable} {W : World} {Γ : Env} {ρ : VEnv} {e : Expr} {v : Val} (hW : WorldConf ct W)
+    (hcore : Core ct Γ e) (henv : EnvConf ct ρ Γ) (hev : eval W ρ e = .ok v) :
+    ∃ T, (∀ s, infer ct Γ e s = (.ok T, s)) ∧ Conf ct v T := by
   obtain ⟨T, hT⟩ := infer_ok e Γ hcore
-  exact ⟨T, hT, sound_expr e Γ ρ T v hcore henv hT hev⟩
+  exact ⟨T, hT, sound_expr hW e Γ ρ T v hcore henv hT hev⟩
 
 /-- `C03.sound`: on Core, for a value whose run-time type is determined and a plain inferred type (no Union, no iterator
     class), the inferred type EQUALS the run-time type. -/
-theorem sound {Γ : Env} {ρ : VEnv} {e : Expr} {v : Val} {T : Ty}
-    (hcore : Core Γ e) (henv : EnvConf ρ Γ) (hev : eval ρ e = .ok v) (hdet : DetV v)
-    (hT : inferT Γ e = .ok T) (hplain : T.plain = true) : inferT Γ e = .ok (typeOf v) := by
-  obtain ⟨T', hT', hc⟩ := sound_conf hcore henv hev
+theorem sound {ct : ClassTable} {W : World} {Γ : Env} {ρ : VEnv} {e : Expr} {v : Val} {T : Ty} (hW : WorldConf ct W)
+    (hcore : Core ct Γ e) (henv : EnvConf ct ρ Γ) (hev : eval W ρ e = .ok v) (hdet : DetV v)
+    (hT : inferT ct Γ e = .ok T) (hplain : T.plain = true) : inferT ct Γ e = .ok (typeOf v) := by
+  obtain ⟨T', hT', hc⟩ := sound_conf hW hcore henv hev
   have : T' = T := by
-    have h1 : inferT Γ e = .ok T' := by unfold inferT; rw [hT' false]
+    have h1 : inferT ct Γ e = .ok T' := by unfold inferT; rw [hT' false]
     rw [h1] at hT; cases hT; rfl
   subst this
   rw [hT, conf_typeOf hc hplain hdet]
@@ -88,23 +89,23 @@ example :
     let ρ : VEnv := [(['x', 's'], .list [.int 1, .int 2, .int 3])]
     let e : Expr := .listComp (.bin (.var ['x']) (.cons .mul (.int 2) .nil)) [['x']] (.var ['x', 's'])
       (.cmp (.var ['x']) (.cons .gt (.int 1) .nil))
-    wt Γ e = true ∧ (eval ρ e).map typeOf = .ok (.list .int) ∧ inferT Γ e = .ok (.list .int) := by
+    wt [] Γ e = true ∧ (eval World.none ρ e).map typeOf = .ok (.list .int) ∧ inferT [] Γ e = .ok (.list .int) := by
   decide +kernel
 
 /-- the former counterexamples are inside Core and typed as CPython types them: `-True`, `True | 2`, `t[0:1]` -/
 example :
     let Γ : Env := [(['t'], .tuple (.cons .int (.cons .str .nil)))]
-    (wt Γ (.factor .neg .true_) = true ∧ inferT Γ (.factor .neg .true_) = .ok .int) ∧
-    (wt Γ (.bin .true_ (.cons .bor (.int 2) .nil)) = true ∧ inferT Γ (.bin .true_ (.cons .bor (.int 2) .nil)) = .ok .int) ∧
-    (wt Γ (.slice (.var ['t']) (.int 0) (.int 1)) = true ∧ inferT Γ (.slice (.var ['t']) (.int 0) (.int 1)) = .ok (.tuple (.cons .int .nil))) := by
+    (wt [] Γ (.factor .neg .true_) = true ∧ inferT [] Γ (.factor .neg .true_) = .ok .int) ∧
+    (wt [] Γ (.bin .true_ (.cons .bor (.int 2) .nil)) = true ∧ inferT [] Γ (.bin .true_ (.cons .bor (.int 2) .nil)) = .ok .int) ∧
+    (wt [] Γ (.slice (.var ['t']) (.int 0) (.int 1)) = true ∧ inferT [] Γ (.slice (.var ['t']) (.int 0) (.int 1)) = .ok (.tuple (.cons .int .nil))) := by
   decide +kernel
 
 /-- non-vacuity of the denotation form on an optional: `o if p else a` with `o : int | None` -/
 example :
     let Γ : Env := [(['o'], .union (.cons .int (.cons .none .nil))), (['a'], .int), (['p'], .bool)]
     let e : Expr := .tern (.var ['o']) (.var ['p']) (.var ['a'])
-    wt Γ e = true ∧
-      inferT Γ e = .ok (.union (.cons (.union (.cons .int (.cons .none .nil))) (.cons .int .nil))) := by
+    wt [] Γ e = true ∧
+      inferT [] Γ e = .ok (.union (.cons (.union (.cons .int (.cons .none .nil))) (.cons .int .nil))) := by
   decide +kernel
 
 /-! ### what is still false on the code (each listed as a known finding; all outside Core) -/
@@ -113,7 +114,7 @@ example :
     (reflections.py:681): `[[None], [1]]` is typed `list<list<int>>` although its first element is a `list<None>`.
     (Core requires every element type of a list literal to survive that selection.) -/
 theorem list_literal_counterexample : ∃ (e : Expr) (v : Val),
-    eval [] e = .ok v ∧ inferT [] e = .ok (.list (.list .int)) ∧ ¬ Conf v (.list (.list .int)) ∧ wt [] e = false := by
+    eval World.none [] e = .ok v ∧ inferT [] [] e = .ok (.list (.list .int)) ∧ ¬ Conf [] v (.list (.list .int)) ∧ wt [] [] e = false := by
   refine ⟨.list (.cons (.list (.cons .none_ .nil)) (.cons (.list (.cons (.int 1) .nil)) .nil)),
     .list [.list [.none], .list [.int 1]], by rfl, by decide +kernel, ?_, by decide +kernel⟩
   intro h
@@ -128,7 +129,7 @@ theorem list_literal_counterexample : ∃ (e : Expr) (v : Val),
 /-- known finding `dict-get-missing-key`: the stub types `dict.get(key)` as the value type (classes.py:120), CPython returns
     `None` for a missing key. (Core admits `get` only with a default of the value type.) -/
 theorem dict_get_counterexample : ∃ (Γ : Env) (ρ : VEnv) (e : Expr) (v : Val),
-    EnvConf ρ Γ ∧ eval ρ e = .ok v ∧ inferT Γ e = .ok .int ∧ ¬ Conf v .int ∧ wt Γ e = false := by
+    EnvConf [] ρ Γ ∧ eval World.none ρ e = .ok v ∧ inferT [] Γ e = .ok .int ∧ ¬ Conf [] v .int ∧ wt [] Γ e = false := by
   refine ⟨[(['d'], .dict .str .int)], [(['d'], .dict [.str ['k']] [.int 1])],
     .call (.var ['d']) ['g', 'e', 't'] (.cons (.str ['z']) .nil), .none, ?_, by rfl, by decide +kernel, ?_, by decide +kernel⟩
   · intro x T hx
@@ -142,14 +143,14 @@ theorem dict_get_counterexample : ∃ (Γ : Env) (ρ : VEnv) (e : Expr) (v : Val
 
 /-- known finding `abs-of-bool`: the stub `abs[T](a: T) -> T` types `abs(True)` as `bool`, CPython computes the `int` 1. -/
 theorem abs_bool_counterexample : ∃ (e : Expr) (v : Val),
-    eval [] e = .ok v ∧ inferT [] e = .ok .bool ∧ ¬ Conf v .bool ∧ wt [] e = false := by
+    eval World.none [] e = .ok v ∧ inferT [] [] e = .ok .bool ∧ ¬ Conf [] v .bool ∧ wt [] [] e = false := by
   refine ⟨.fcall ['a', 'b', 's'] (.cons .true_ .nil), .int 1, by rfl, by decide +kernel, ?_, by decide +kernel⟩
   intro h; cases h
 
 /-- known finding `list-of-dict-items`: `list(d.items())` is typed `list<K>` (the template of `list(iterable: Iterator[T])` is bound
     to the first argument of `ItemsView<K, V>`), CPython builds a list of `(key, value)` tuples. -/
 theorem list_items_counterexample : ∃ (Γ : Env) (ρ : VEnv) (e : Expr) (v : Val),
-    EnvConf ρ Γ ∧ eval ρ e = .ok v ∧ inferT Γ e = .ok (.list .str) ∧ ¬ Conf v (.list .str) ∧ wt Γ e = false := by
+    EnvConf [] ρ Γ ∧ eval World.none ρ e = .ok v ∧ inferT [] Γ e = .ok (.list .str) ∧ ¬ Conf [] v (.list .str) ∧ wt [] Γ e = false := by
   refine ⟨[(['d'], .dict .str .int)], [(['d'], .dict [.str ['k']] [.int 1])],
     .fcall ['l', 'i', 's', 't'] (.cons (.call (.var ['d']) ['i', 't', 'e', 'm', 's'] .nil) .nil),
     .list [.tuple [.str ['k'], .int 1]], ?_, by rfl, by decide +kernel, ?_, by decide +kernel⟩
@@ -169,15 +170,15 @@ theorem list_items_counterexample : ∃ (Γ : Env) (ρ : VEnv) (e : Expr) (v : V
 /-- known finding `boolop-nonbool-operands`: `and` / `or` are typed `bool` (on_and_compare / on_or_compare), CPython returns one
     of the operands: `1 and 2` is the `int` 2. -/
 theorem boolop_counterexample : ∃ (e : Expr) (v : Val),
-    eval [] e = .ok v ∧ inferT [] e = .ok .bool ∧ ¬ Conf v .bool ∧ wt [] e = false := by
+    eval World.none [] e = .ok v ∧ inferT [] [] e = .ok .bool ∧ ¬ Conf [] v .bool ∧ wt [] [] e = false := by
   refine ⟨.and_ (.cons (.int 1) (.cons (.int 2) .nil)), .int 2, by rfl, by decide +kernel, ?_, by decide +kernel⟩
   intro h; cases h
 
 /-- known finding `tuple-slice-nonliteral-bounds`: only literal or omitted bounds select elements (reflections.py:476); `t[-1:]`
     keeps the whole tuple type. -/
 theorem tuple_slice_negative_counterexample : ∃ (Γ : Env) (ρ : VEnv) (e : Expr) (v : Val),
-    EnvConf ρ Γ ∧ eval ρ e = .ok v ∧ inferT Γ e = .ok (.tuple (.cons .int (.cons .str .nil))) ∧
-    ¬ Conf v (.tuple (.cons .int (.cons .str .nil))) ∧ wt Γ e = false := by
+    EnvConf [] ρ Γ ∧ eval World.none ρ e = .ok v ∧ inferT [] Γ e = .ok (.tuple (.cons .int (.cons .str .nil))) ∧
+    ¬ Conf [] v (.tuple (.cons .int (.cons .str .nil))) ∧ wt [] Γ e = false := by
   refine ⟨[(['t'], .tuple (.cons .int (.cons .str .nil)))], [(['t'], .tuple [.int 1, .str ['a']])],
     .slice (.var ['t']) (.factor .neg (.int 1)) .empty_, .tuple [.str ['a']], ?_, by rfl, by decide +kernel, ?_, by decide +kernel⟩
   · intro x T hx
@@ -196,7 +197,7 @@ theorem tuple_slice_negative_counterexample : ∃ (Γ : Env) (ρ : VEnv) (e : Ex
 /-- known finding `ternary-union-of-containers`: the two branches `[a]` and `[None]` are inferred as different list types, their
     ternary as `Union<list<int>, list<None>>`, on which no operator resolves: inference FAILS on an expression CPython evaluates. -/
 theorem ternary_union_counterexample : ∃ (Γ : Env) (ρ : VEnv) (e : Expr) (v : Val),
-    EnvConf ρ Γ ∧ eval ρ e = .ok v ∧ inferT Γ e = .error .opNotAllowed ∧ wt Γ e = false := by
+    EnvConf [] ρ Γ ∧ eval World.none ρ e = .ok v ∧ inferT [] Γ e = .error .opNotAllowed ∧ wt [] Γ e = false := by
   refine ⟨[(['a'], .int), (['p'], .bool)], [(['a'], .int 1), (['p'], .bool true)],
     .bin (.group (.tern (.list (.cons (.var ['a']) .nil)) (.var ['p']) (.list (.cons .none_ .nil)))) (.cons .mul (.int 2) .nil),
     .list [.int 1, .int 1], ?_, by rfl, by decide +kernel, by decide +kernel⟩
@@ -212,28 +213,182 @@ theorem ternary_union_counterexample : ∃ (Γ : Env) (ρ : VEnv) (e : Expr) (v 
       exact ⟨.bool true, by simp [hxa], .bool true⟩
     · cases hx
 
+/-! ## beyond single expressions: declarations, operator chains, iteration, attributes of user classes -/
+
+/-- `chain_type`: for a flat operator chain `e0 op1 e1 op2 e2 …` in Core whose value is a scalar, the inferred (= declared
+    in the emitted C++) type is the type of the value CPython computes by evaluating the chain left-nested, each step with ITS
+    operator (what the seeded "chain fold" mutations broke). -/
+theorem chain_type {ct : ClassTable} {W : World} {Γ : Env} {ρ : VEnv} {e : Expr} {op : BOp} {e1 : Expr} {rest : Chain} {v : Val}
+    (hW : WorldConf ct W) (hcore : Core ct Γ (.bin e (.cons op e1 rest))) (henv : EnvConf ct ρ Γ)
+    (hev : eval W ρ (.bin e (.cons op e1 rest)) = .ok v) (hv : typeOf v ∈ scalarTys) :
+    inferT ct Γ (.bin e (.cons op e1 rest)) = .ok (typeOf v) := by
+  obtain ⟨T, hT, hc⟩ := sound_conf hW hcore henv hev
+  have hwt := hcore
+  unfold Core wt at hwt
+  simp only [Bool.and_eq_true] at hwt
+  obtain ⟨⟨h1, h2⟩, h3⟩ := hwt
+  obtain ⟨Te, hTe⟩ := infer_ok e Γ h1
+  obtain ⟨ops, hops⟩ := inferChain_ok (.cons op e1 rest) Γ h2
+  rw [hTe.inferT, hops.inferT] at h3
+  simp only at h3
+  have hf := hT false
+  simp only [infer, hTe false, hops false, R.bind_ok, R.lift, Prod.mk.injEq, and_true] at hf
+  have hne : ops ≠ [] := by
+    intro h0
+    have := hops false
+    rw [h0] at this
+    unfold wtChain at h2
+    simp only [Bool.and_eq_true] at h2
+    obtain ⟨T1, hT1⟩ := infer_ok e1 Γ h2.1
+    obtain ⟨ops', hops'⟩ := inferChain_ok rest Γ h2.2
+    simp only [inferChain, hT1 false, hops' false, R.bind_ok] at this
+    cases this
+  have hshape := foldBin_shape ops Te T hne h3 hf
+  have : T = typeOf v := conf_scalar_typeOf hc hv hshape
+  unfold inferT
+  rw [hT false, this]
+
+/-- evaluation of a flat chain IS the left-nested evaluation: `e0 op1 e1 op2 e2 … = ((e0 op1 e1) op2 e2) …` -/
+theorem chain_left_nested (W : World) (ρ : VEnv) (e e1 : Expr) (op : BOp) (rest : Chain) :
+    eval W ρ (.bin e (.cons op e1 rest)) = eval W ρ (.bin (.bin e (.cons op e1 .nil)) rest) := by
+  simp only [eval, evalChain, bind_assoc]
+  cases eval W ρ e with
+  | error _ => rfl
+  | ok a => simp only [bind, Except.bind]
+
+example :
+    let Γ : Env := [(['n'], .int), (['m'], .int), (['k'], .int)]
+    let e : Expr := .bin (.var ['n']) (.cons .mul (.var ['m']) (.cons .div (.var ['k']) .nil))
+    wt [] Γ e = true ∧ inferT [] Γ e = .ok .float := by decide +kernel
+
+/-- `sound_decl`: a declaration `x = e` takes the value's type (on_move_assign / resolve_right_to_left); after CPython executed
+    it, the extended environment still conforms — so the typing of a straight-line body is sound statement by statement. -/
+theorem sound_decl {ct : ClassTable} {W : World} {Γ : Env} {ρ : VEnv} {e : Expr} {v : Val} (x : Str) (hW : WorldConf ct W)
+    (hcore : Core ct Γ e) (henv : EnvConf ct ρ Γ) (hev : eval W ρ e = .ok v) :
+    ∃ T, inferT ct Γ e = .ok T ∧ EnvConf ct ((x, v) :: ρ) ((x, T) :: Γ) := by
+  obtain ⟨T, hT, hc⟩ := sound_conf hW hcore henv hev
+  exact ⟨T, by unfold inferT; rw [hT false], henv.cons hc⟩
+
+/-- `sound_iter`: the inferred loop-variable type (`IteratorTrait.iterates`: `__next__` before `__iter__`, an `Iterator<T>`
+    result unwrapped) denotes EVERY value the loop variable takes under CPython — for list, dict (keys), the views and builtin
+    iterators (`keys/values/items`, `range`, `enumerate`, `reversed`) and for instances of user classes following either form of
+    the iterator protocol (`__iter__` returning the object itself + `__next__`, or `__iter__ -> Iterator[T]`). -/
+theorem sound_iter {ct : ClassTable} {W : World} {tsrc elem : Ty} {v : Val} {items : List Val} (hW : WorldConf ct W)
+    (hv : Conf ct v tsrc) (hit : iterates ct tsrc = .ok elem) (hpy : pyIterTy ct tsrc = some elem)
+    (hitems : iterItemsW W v = .ok items) : ∀ x ∈ items, Conf ct x elem := by
+  have _ := hit
+  exact (iterItemsW_conf hW hv hpy hitems).mem
+
+/-- `sound_for`: the targets of `for x, y in src` (statement or comprehension clause) are bound to types that denote the values
+    CPython binds them to, for every item: the extended environment conforms. -/
+theorem sound_for {ct : ClassTable} {W : World} {Γ bs : Env} {ρ : VEnv} {vars : List Str} {src : Expr} {tsrc : Ty} {vsrc : Val}
+    {items : List Val} (hW : WorldConf ct W) (hcore : Core ct Γ src) (henv : EnvConf ct ρ Γ) (hev : eval W ρ src = .ok vsrc)
+    (hT : inferT ct Γ src = .ok tsrc) (hbs : compEnv ct vars tsrc = some bs) (hitems : iterItemsW W vsrc = .ok items) :
+    ∀ item ∈ items, ∀ bsv, bindItem vars item = .ok bsv → EnvConf ct (bsv ++ ρ) (bs ++ Γ) := by
+  intro item hi bsv hb
+  obtain ⟨T', hT', hc⟩ := sound_conf hW hcore henv hev
+  have : T' = tsrc := by
+    have h1 : inferT ct Γ src = .ok T' := by unfold inferT; rw [hT' false]
+    rw [h1] at hT; cases hT; rfl
+  subst this
+  obtain ⟨elem, _, hpy, hv, rfl⟩ := compEnv_some hbs
+  exact EnvConf.extend (bindItem_conf hv ((iterItemsW_conf hW hc hpy hitems).mem item hi) hb) henv
+
+/-- `iter_type`: what `iterates` answers for the stub containers, for EVERY element type (Unions, nested generics, user classes):
+    `for x in <list<t>>` gives `t`, `<dict<k, v>>` gives `k`, `<Iterator<t>>` (range, enumerate, reversed, keys(), values()) gives
+    `t`. Proved on the port of `TemplateManipulator`; with `sound_iter` and `pyIterTy` this makes the loop-variable type of these
+    sources sound without any side condition on the element type. -/
+theorem iter_type {ct : ClassTable} (hl : findClass ct s_list = Option.none) (hd : findClass ct s_dict = Option.none) (t k v : Ty) :
+    iterates ct (.list t) = .ok t ∧ iterates ct (.dict k v) = .ok k ∧
+    ((∀ a rest, t ≠ .cls s_Iterator (.cons a rest)) → iterates ct (tIter t) = .ok t) ∧
+    pyIterTy ct (.list t) = some t ∧ pyIterTy ct (.dict k v) = some k ∧ pyIterTy ct (tIter t) = some t :=
+  ⟨iterates_list hl t, iterates_dict hd k v, iterates_iterator t, rfl, rfl, by simp [pyIterTy, tIter]⟩
+
+/-- on an instance of a user class with `__next__` the element type is `__next__`'s declared return type, whatever `__iter__`
+    is declared to return (this is the order `_resolve_method` must keep: the seeded mutation that asked for `__iter__` first
+    answers the class itself for the classic protocol) -/
+theorem iterates_user {ct : ClassTable} {c : Str} {mn : Member} (hstub : findIn Dunder.methods c s_next = none)
+    (hm : memberOf ct c s_next = some mn) (hk : mn.callable = true)
+    (hnt : templatesOf (expandTy [2] mn.ty) = []) (hni : ∀ a rest, mn.ty ≠ .cls s_Iterator (.cons a rest)) :
+    iterates ct (.cls c .nil) = .ok mn.ty := iterates_user_next hstub hm hk hnt hni
+
+/-- `sound_attr`: `r.a` on an instance of a user class (instance variable declared in `__init__` / the class body, class
+    variable, property), looked up through the single-inheritance chain: the inferred type is the declared type of the member
+    found first on the chain, and it denotes the value CPython reads (instance dict first, then the class). -/
+theorem sound_attr {ct : ClassTable} {W : World} {Γ : Env} {ρ : VEnv} {r : Expr} {a : Str} {v : Val} (hW : WorldConf ct W)
+    (hcore : Core ct Γ (.attr r a)) (henv : EnvConf ct ρ Γ) (hev : eval W ρ (.attr r a) = .ok v) :
+    ∃ Tr c mem, inferT ct Γ r = .ok Tr ∧ stripNullable Tr = .cls c .nil ∧ memberOf ct c a = some mem ∧
+      inferT ct Γ (.attr r a) = .ok mem.ty ∧ Conf ct v mem.ty := by
+  obtain ⟨T, hT, hc⟩ := sound_conf hW hcore henv hev
+  have hwt := hcore
+  unfold Core wt at hwt
+  simp only [Bool.and_eq_true] at hwt
+  obtain ⟨Tr, hTr⟩ := infer_ok r Γ hwt.1
+  have h2 := hwt.2
+  rw [hTr.inferT] at h2
+  simp only [tyOk] at h2
+  obtain ⟨c, mem, hcs, hm, _, hk⟩ := attrOk_inv h2
+  have hf := hT false
+  simp only [infer, hTr false, R.bind_ok, R.lift, attr_infer hcs hm hk] at hf
+  have hTm : mem.ty = T := pair_ok_inj hf
+  refine ⟨Tr, c, mem, hTr.inferT, hcs, hm, ?_, hTm ▸ hc⟩
+  unfold inferT
+  rw [hT false, hTm]
+
+/-- a base class, a subclass overriding nothing, a member found on the base through the chain; a property; a method call -/
+example :
+    let ct : ClassTable := [⟨['C'], none, [⟨['n'], .field, .int⟩, ⟨['p'], .property, .str⟩, ⟨['g'], .method, .list .int⟩,
+        ⟨['_', '_', 'i', 't', 'e', 'r', '_', '_'], .method, .cls ['C'] .nil⟩, ⟨['_', '_', 'n', 'e', 'x', 't', '_', '_'], .method, .float⟩]⟩,
+      ⟨['D'], some ['C'], [⟨['k'], .classVar, .bool⟩]⟩]
+    let Γ : Env := [(['d'], .cls ['D'] .nil)]
+    inferT ct Γ (.attr (.var ['d']) ['n']) = .ok .int ∧ wt ct Γ (.attr (.var ['d']) ['n']) = true ∧
+    inferT ct Γ (.attr (.var ['d']) ['p']) = .ok .str ∧ inferT ct Γ (.attr (.var ['d']) ['k']) = .ok .bool ∧
+    inferT ct Γ (.call (.var ['d']) ['g'] .nil) = .ok (.list .int) ∧ wt ct Γ (.call (.var ['d']) ['g'] .nil) = true ∧
+    inferT ct Γ (.listComp (.var ['x']) [['x']] (.var ['d']) .true_) = .ok (.list .float) ∧
+    wt ct Γ (.listComp (.var ['x']) [['x']] (.var ['d']) .true_) = true ∧
+    inferT ct Γ (.fcall ['D'] .nil) = .ok (.cls ['D'] .nil) := by
+  decide +kernel
+
+/-- `var_at`: with the environment a symbol table induces at a node (`envAt`: C08's `find_by_symbolic` — scope chain, class-scope
+    visibility rule, imports, libraries — then the type stored with the symbol), the `Var` handler answers the type of the symbol
+    name resolution finds. So every theorem above that is stated over a flat `Γ` holds over the symbol table. -/
+theorem var_at {ct : ClassTable} (st : SymTab) (node : Scope.NodeInfo Str Str) (names : List Str) (x : Str) (t : Ty)
+    (h : varTypeAt st node x = .ok t) (hm : t ≠ noSuchAttr) (hx : x ∈ names) :
+    inferT ct (envAt st node names) (.var x) = .ok t := by
+  unfold inferT
+  simp only [infer, lookup_envAt st node x t h names hx, hm, if_false]
+
+/-- the class-scope visibility rule (finder.py:124-158) on the program `threshold: int` / `class Outer: threshold: ClassVar[str]` /
+    nested `class Inner`: a bare `threshold` in the nested class body and in a method of `Outer` is the module-level `int`
+    (a class scope is no enclosing scope for the bodies nested in it), directly in `Outer`'s body it is the class variable. -/
+theorem class_scope_rule :
+    varTypeAt demoTab nodeInner n_threshold = .ok .int ∧
+    varTypeAt demoTab nodeOuterMethod n_threshold = .ok .int ∧
+    varTypeAt demoTab nodeOuterBody n_threshold = .ok .str := by
+  decide +kernel
+
 /-! ## totality -/
 
 /-- Inference is total on Core: it succeeds from every session state and the inferred type contains no `Unknown`
     (for an environment whose declared types contain none). -/
-theorem total {Γ : Env} {e : Expr} (hcore : Core Γ e) (hΓ : EnvNoUnknown Γ) :
-    ∃ T, (∀ s, infer Γ e s = (.ok T, s)) ∧ T.noUnknown = true := by
+theorem total {ct : ClassTable} {Γ : Env} {e : Expr} (hcore : Core ct Γ e) (hΓ : EnvNoUnknown Γ) (hct : CtNoUnknown ct) :
+    ∃ T, (∀ s, infer ct Γ e s = (.ok T, s)) ∧ T.noUnknown = true := by
   obtain ⟨T, hT⟩ := infer_ok e Γ hcore
-  exact ⟨T, hT, infer_noUnknown e Γ T hcore hΓ hT⟩
+  exact ⟨T, hT, infer_noUnknown hct e Γ T hcore hΓ hT⟩
 
-example : Core [] (.dict (.cons (.str ['k']) (.list (.cons (.int 1) .nil)) .nil)) ∧
-    inferT [] (.dict (.cons (.str ['k']) (.list (.cons (.int 1) .nil)) .nil)) = .ok (.dict .str (.list .int)) := by
+example : Core [] [] (.dict (.cons (.str ['k']) (.list (.cons (.int 1) .nil)) .nil)) ∧
+    inferT [] [] (.dict (.cons (.str ['k']) (.list (.cons (.int 1) .nil)) .nil)) = .ok (.dict .str (.list .int)) := by
   decide +kernel
 
 /-- The result of inference for an expression does not depend on what the session inferred before, and inference leaves the
     session state as it found it — for EVERY expression of the model, well-typed or not, also when inference fails.
     (False before 401dc97: `on_list` extended the library's shared `Union` symbol.) -/
-theorem session_independent (Γ : Env) (e : Expr) (s : Bool) : infer Γ e s = ((infer Γ e false).1, s) := by
+theorem session_independent (ct : ClassTable) (Γ : Env) (e : Expr) (s : Bool) : infer ct Γ e s = ((infer ct Γ e false).1, s) := by
   obtain ⟨r, hr⟩ := infer_stateless e Γ
   rw [hr s, hr false]
 
 /-- two heterogeneous list literals in one expression, from a session that already inferred one -/
-example : (infer [] (.tuple (.cons (.list (.cons (.int 1) (.cons (.str ['a']) .nil)))
+example : (infer [] [] (.tuple (.cons (.list (.cons (.int 1) (.cons (.str ['a']) .nil)))
     (.cons (.list (.cons (.int 1) (.cons .none_ .nil))) .nil))) true).1
     = .ok (.tuple (.cons (.list (.union (.cons .int (.cons .str .nil)))) (.cons (.list (.union (.cons .int (.cons .none .nil)))) .nil))) := by
   decide +kernel
@@ -244,17 +399,17 @@ example : (infer [] (.tuple (.cons (.list (.cons (.int 1) (.cons (.str ['a']) .n
     for EVERY type `T` — Unions (optionals) and nested generics included. Proved on the step-by-step port of
     `TemplateManipulator` (flatten, normalise, `_find_actual_path`, `make_updates`, `apply`), by induction on `T`.
     (False before e9f8d3f: `list[int | None].pop()` was typed `int`.) -/
-theorem template (t : Ty) :
-    (findMethod ['l', 'i', 's', 't'] ['p', 'o', 'p']).map (fun row => returnsOf row (.list t) .nil) = some t := by
+theorem template (ct : ClassTable) (t : Ty) :
+    (findMethod ct ['l', 'i', 's', 't'] ['p', 'o', 'p']).map (fun row => returnsOf row (.list t) .nil) = some t := by
   rw [findMethod_pop]
   simp only [Option.map_some, returnsOf_pop]
 
 /-- the former counterexample and the shapes of the (repaired) finding `template-union-first-member`, via other rows -/
 example :
     let opt : Ty := .union (.cons .int (.cons .none .nil))
-    (findMethod ['l', 'i', 's', 't'] ['p', 'o', 'p']).map (fun row => returnsOf row (.list opt) .nil) = some opt ∧
-    (findMethod ['l', 'i', 's', 't'] ['c', 'o', 'p', 'y']).map (fun row => returnsOf row (.list opt) .nil) = some (.list opt) ∧
-    inferT [(['x', 'o'], .list opt)] (.listComp (.var ['z']) [['z']] (.var ['x', 'o']) .true_) = .ok (.list opt) := by
+    (findMethod [] ['l', 'i', 's', 't'] ['p', 'o', 'p']).map (fun row => returnsOf row (.list opt) .nil) = some opt ∧
+    (findMethod [] ['l', 'i', 's', 't'] ['c', 'o', 'p', 'y']).map (fun row => returnsOf row (.list opt) .nil) = some (.list opt) ∧
+    inferT [] [(['x', 'o'], .list opt)] (.listComp (.var ['z']) [['z']] (.var ['x', 'o']) .true_) = .ok (.list opt) := by
   decide +kernel
 
 end Tranp.C03
